@@ -504,11 +504,14 @@ async fn history<S: Store>(
     len: u64,
     tw: &mut TraceWriter,
     sum: &mut Summary,
-) -> (Vec<u64>, Vec<String>) {
+) -> (Vec<u64>, Vec<String>, Vec<String>) {
     let mut rng = StdRng::seed_from_u64(seed.wrapping_mul(1_000_003).wrapping_add(run));
     // the sampling metadata as returned (sorted, multiplicities kept) after every sequential operation: the two
     // back-ends conform to ONE model, so they must agree with each other on it
     let mut metas: Vec<String> = vec![];
+    // everything else of the projection: as long as the two back-ends agree on it, they went through the same
+    // operations (also after a concurrent pair) and must agree on the metadata too
+    let mut sigs: Vec<String> = vec![];
     let now = Time::now();
     let base = (now - Duration::from_secs(1_000_000)).unwrap();
     let mut it = Intern { base_secs: base.unix_timestamp(), ..Default::default() };
@@ -626,6 +629,7 @@ async fn history<S: Store>(
         match std::panic::AssertUnwindSafe(project(s, &it, len)).catch_unwind().await {
             Ok(st) => {
                 metas.push(st["meta"].to_string());
+                sigs.push(format!("{}|{}|{}|{}|{}", st["stored"], st["sampled"], st["pruned"], st["byh"], st["metanone"]));
                 ev["st"] = st
             }
             Err(e) => {
@@ -649,7 +653,7 @@ async fn history<S: Store>(
     if had_fail_insert && had_remove && reinsert {
         sum.add("histories_with_failed_insert_removal_and_reinsertion", 1);
     }
-    (results, metas)
+    (results, metas, sigs)
 }
 
 pub fn record(args: &Args) {
@@ -668,7 +672,7 @@ pub fn record(args: &Args) {
     rt.block_on(async {
         for run in 0..runs {
             let mem = InMemoryStore::new();
-            let (r1, m1) = history(&mem, "mem", seed, run, ops, len, &mut tw, &mut sum).await;
+            let (r1, m1, g1) = history(&mem, "mem", seed, run, ops, len, &mut tw, &mut sum).await;
             let redb = if file_backed {
                 let p = format!("{}/store-{run}.redb", args.opt("redb-file").unwrap());
                 let _ = std::fs::remove_file(&p);
@@ -676,9 +680,10 @@ pub fn record(args: &Args) {
             } else {
                 RedbStore::in_memory().await.unwrap()
             };
-            let (r2, m2) = history(&redb, "redb", seed, run, ops, len, &mut tw, &mut sum).await;
+            let (r2, m2, g2) = history(&redb, "redb", seed, run, ops, len, &mut tw, &mut sum).await;
             let upto = r1.iter().position(|x| *x == 777).unwrap_or(r1.len()).min(r2.iter().position(|x| *x == 777).unwrap_or(r2.len()));
-            if let Some(i) = (0..upto.min(m1.len()).min(m2.len())).find(|i| m1[*i] != m2[*i]) {
+            let same_upto = (0..g1.len().min(g2.len())).find(|i| g1[*i] != g2[*i]).unwrap_or(g1.len().min(g2.len()));
+            if let Some(i) = (0..same_upto.min(m1.len()).min(m2.len())).find(|i| m1[*i] != m2[*i]) {
                 meta_disagreements.push(json!({"run": run, "op_index": i, "mem": m1[i], "redb": m2[i]}));
             }
             if let Some(i) = (0..upto).find(|i| r1[*i] != r2[*i]) {
